@@ -638,7 +638,13 @@ static void DecodeEmulOneToTwo(Word Code) {
         else if ((DestParts.Mode == eModeRegDisp) && (DestParts.Part == RegPC)) {
             LongWord NewDist = DestParts.Val - 2;
 
-            if ((NewDist & 0x8000) != (DestParts.Val & 0x8000)) {
+            /* as in DecodeAdr(): on the MSP430 and in the first 64K of the
+               MSP430X, address computation wraps around at 16 bits, so every
+               displacement is reachable: */
+
+            if ((MomCPU < CPUMSP430X) || (EProgCounter() + PCDist <= 0xffff)) {
+                NewDist &= 0xffff;
+            } else if ((NewDist & 0x8000) != (DestParts.Val & 0x8000)) {
                 WrError(ErrNum_DistTooBig);
                 return;
             }
